@@ -38,6 +38,7 @@ func C13(r *core.Run) {
 	rule135(r, ctx, fn)
 	rule136(r)
 	rule137(r, fn)
+	rule138(r, fn)
 }
 
 func resultFieldStores(r *core.Run, fn *ssa.Function, field string) []*ssa.Store {
@@ -455,4 +456,54 @@ func rule137(r *core.Run, fn *ssa.Function) {
 		}
 		r.Check(matchOK && notCommon, "R13.7", key(name, "entry guarded by prefix match", sprintf("#%d", i)), pos(r, st), "listed only when the key matches and is not grouped", "a version is listed without the key having matched the prefix (or although it belongs under a common prefix)")
 	}
+}
+
+// rule138 — no matching key is silently skipped.
+func rule138(r *core.Run, fn *ssa.Function) {
+	r.Rule("R13.8", "in the key loop of ListBucketVersions the only ways to go on to the next key without iterating the object's versions are the prefix not matching and the key being grouped under a common prefix (AddPrefix): no other condition hides a key's versions")
+	name := fname(r, fn)
+	var head *ssa.If
+	var iterCall ssa.Instruction
+	core.Instrs(fn, func(in ssa.Instruction) {
+		if c, ok := in.(*ssa.Call); ok && r.P.CalleeName(c) == "s3mem.(*bucketObject).Iterator" {
+			iterCall = c
+		}
+	})
+	if iterCall == nil {
+		r.Violated("R13.8", key(name, "versions iterated"), r.P.Pos(fn.Pos()), "the versions of a listed key are no longer iterated")
+		return
+	}
+	// the outer loop head: the If on iter.Next() that guards the Iterator call
+	for _, g := range core.GuardsOf(iterCall) {
+		if c, ok := core.CondOf(g.If.Cond).X.(*ssa.Call); ok && r.P.CalleeName(c) == "goskipiter.(*Iterator).Next" && g.Branch {
+			head = g.If
+		}
+	}
+	if head == nil {
+		r.Unresolved("R13.8: outer key loop of ListBucketVersions not recognised")
+		return
+	}
+	body := head.Block().Succs[0]
+	// the loop head block re-evaluates iter.Next(): find the block that computes it (the If's own block)
+	skip, at := core.SilentSkip(body, head.Block(), func(in ssa.Instruction) bool {
+		if in == iterCall {
+			return true
+		}
+		if c, ok := in.(*ssa.Call); ok && r.P.CalleeName(c) == "gofakes3.(*ListBucketVersionsResult).AddPrefix" {
+			return true
+		}
+		return false
+	}, func(iff *ssa.If, branch bool) bool {
+		cd := core.CondOf(iff.Cond)
+		if c, ok := cd.X.(*ssa.Call); ok && r.P.CalleeName(c) == "gofakes3.(Prefix).Match" {
+			truth := branch != cd.Neg
+			return !truth // the not-matching edge
+		}
+		return false
+	})
+	p0 := pos(r, head)
+	if at != nil {
+		p0 = pos(r, at)
+	}
+	r.Check(!skip, "R13.8", key(name, "no silent skip of a matching key"), p0, "every matching, ungrouped key has its versions iterated", "a key that matches the prefix can be skipped without its versions being listed (a condition other than 'prefix does not match' / 'grouped under a common prefix' continues the loop)")
 }
